@@ -548,3 +548,106 @@ class columns_render:
         yield "nothing-written", both(s._contents._focus == fp, n_items(s) == n_items(old))
 
     loops = {0: Loop(invariant=_render_loop, shapes={"data": JoinList()})}
+
+
+# ================================================================================================ lemmas
+#
+# Inductive facts about the spec functions, proved as base + step; instantiated (never assumed as axioms of their own)
+# by x_unfold / x_mono / x_all_visible / gen_sum_is_X / r_unfold above.
+
+
+@lemma("columns-x-monotone", property="C09")
+class columns_x_monotone:
+    """P(b) := X(a) <= X(b) for a <= b, and X(b) >= 0.  X(b+1) = X(b) + t with t = (w + d if w > 0 else 0) >= 0."""
+
+    params = dict(w=Int, d=Int, xa=Int, xb=Int)
+
+    def requires(x):
+        return both(x.w >= 0, x.d >= 0, x.xa <= x.xb, x.xa >= 0)  # induction hypothesis X(a) <= X(b), X(a) >= 0
+
+    def claim(x):
+        t = ite(x.w > 0, x.w + x.d, 0)
+        yield "base", both(x.xa <= x.xa, 0 <= 0)
+        yield "step", both(x.xa <= x.xb + t, x.xb + t >= 0)
+
+
+@lemma("columns-x-linear", property="C09")
+class columns_x_linear:
+    """P(k) := X(k) = psum(k) + k*d when w_j > 0 for all j < k.  Step: X(k+1) = X(k) + w + d, psum(k+1) = psum(k) + w."""
+
+    params = dict(k=Int, w=Int, d=Int, xk=Int, pk=Int)
+
+    def requires(x):
+        return both(x.k >= 0, x.w > 0, x.xk == x.pk + x.k * x.d)
+
+    def claim(x):
+        yield "base", 0 == 0 + 0 * x.d
+        yield "step", x.xk + ite(x.w > 0, x.w + x.d, 0) == (x.pk + x.w) + (x.k + 1) * x.d
+
+
+@lemma("pointwise-equal-prefix-sums", property="C09")
+class pointwise_equal_prefix_sums:
+    """P(k) := G(k) = F(k) for two prefix sums from 0 whose summands agree below k."""
+
+    params = dict(gk=Int, fk=Int, tg=Int, tf=Int)
+
+    def requires(x):
+        return both(x.gk == x.fk, x.tg == x.tf)
+
+    def claim(x):
+        yield "base", 0 == 0
+        yield "step", x.gk + x.tg == x.fk + x.tf
+
+
+@lemma("columns-r-monotone", property="C09")
+class columns_r_monotone:
+    """P(b) := 0 <= R(a) <= R(b) for a <= b.  R(b+1) = max(R(b), t)."""
+
+    params = dict(ra=Int, rb=Int, t=Int)
+
+    def requires(x):
+        return both(0 <= x.ra, x.ra <= x.rb)
+
+    def claim(x):
+        yield "base", both(0 <= 0, x.ra <= x.ra)
+        yield "step", both(x.ra <= imax(x.rb, x.t), imax(x.rb, x.t) >= 0)
+
+
+# ---- the two engine models added for these contracts, compared with the plain encodings on lists whose length is
+# symbolic but pinned (the plain encodings of max/min/sum/slices are cross-checked against CPython by XC)
+
+_XK = "verif:spec/xcheck_cases.py:"
+
+
+@contract(_XK + "x_max_min_star", property=("C09", "XC"), replayable=False)
+class xc_max_min_star:
+    params = dict(a=Int(-9, 40), items=ListOf(Int(-3, 9), max_len=4))
+    result = Tup(Int, Int)
+
+    def requires(a):
+        return Q.seq_len(a.items) == 3
+
+    def ensures(a, result):
+        e = [Q.seq_get(a.items, j) for j in range(3)]
+        yield "max-with-starred-list", result[0] == imax(a.a, *e)
+        yield "min-with-starred-list", result[1] == imin(a.a, 7, *e)
+
+
+@contract(_XK + "x_sum_filtered", property=("C09", "XC"), replayable=False)
+class xc_sum_filtered:
+    params = dict(items=ListOf(Int(-3, 9), max_len=4), d=Int(-3, 9), k=Int(-6, 6))
+    result = Int
+
+    def requires(a):
+        return Q.seq_len(a.items) == 3
+
+    def ensures(a, result):
+        e = [Q.seq_get(a.items, j) for j in range(3)]
+        for rec in cur().ghost.get("gen_sums", []):
+            for j in range(3):
+                rec.unfold(j)
+        kk = ite(a.k < 0, imax(a.k + 3, 0), imin(a.k, 3))  # items[:k]
+        want = 0
+        for j in range(3):
+            want = want + ite(both(j < kk, e[j] > 0), a.d + e[j], 0)
+        yield "sum-of-the-filtered-mapped-slice", result == want
